@@ -24,6 +24,7 @@ use string::StringNewtype;
 /// Defines sanitizers and validators on a newtype.
 /// Guarantees that the type can be instantiated only with valid values.
 /// See the documentation for [nutype](https://docs.rs/nutype) crate for more information.
+#[cfg(not(nutype_verif))]
 #[proc_macro_attribute]
 pub fn nutype(
     attrs: proc_macro::TokenStream,
@@ -32,6 +33,73 @@ pub fn nutype(
     expand_nutype(attrs.into(), type_definition.into())
         .unwrap_or_else(|e| syn::Error::to_compile_error(&e))
         .into()
+}
+
+/// Verification hook (`--cfg nutype_verif` only): the same entry point, which additionally writes
+/// the exact token stream handed to rustc into `$NUTYPE_VERIF_DUMP_DIR/<TypeName>[.<n>].rs`.
+#[cfg(nutype_verif)]
+#[proc_macro_attribute]
+pub fn nutype(
+    attrs: proc_macro::TokenStream,
+    type_definition: proc_macro::TokenStream,
+) -> proc_macro::TokenStream {
+    let attrs: TokenStream = attrs.into();
+    let type_definition: TokenStream = type_definition.into();
+    let header = format!(
+        "// NUTYPE_VERIF_INPUT #[nutype({})] {}",
+        attrs.to_string().replace('\n', " "),
+        type_definition.to_string().replace('\n', " ")
+    );
+    let type_name = nutype_verif_type_name(&type_definition);
+    let out =
+        expand_nutype(attrs, type_definition).unwrap_or_else(|e| syn::Error::to_compile_error(&e));
+    nutype_verif_dump(&type_name, &header, &out);
+    out.into()
+}
+
+#[cfg(nutype_verif)]
+fn nutype_verif_type_name(type_definition: &TokenStream) -> String {
+    let mut after_struct = false;
+    for tt in type_definition.clone() {
+        if let proc_macro2::TokenTree::Ident(ident) = tt {
+            if after_struct {
+                return ident.to_string();
+            }
+            after_struct = ident == "struct";
+        }
+    }
+    String::from("__unnamed__")
+}
+
+#[cfg(nutype_verif)]
+fn nutype_verif_dump(type_name: &str, header: &str, out: &TokenStream) {
+    let Ok(dir) = std::env::var("NUTYPE_VERIF_DUMP_DIR") else {
+        return;
+    };
+    let dir = std::path::PathBuf::from(dir);
+    let _ = std::fs::create_dir_all(&dir);
+    let text = format!("{header}\n{out}\n");
+    let mut n = 0usize;
+    loop {
+        let file_name = if n == 0 {
+            format!("{type_name}.rs")
+        } else {
+            format!("{type_name}.{n}.rs")
+        };
+        let opened = std::fs::OpenOptions::new()
+            .write(true)
+            .create_new(true)
+            .open(dir.join(file_name));
+        match opened {
+            Ok(mut file) => {
+                use std::io::Write;
+                let _ = file.write_all(text.as_bytes());
+                return;
+            }
+            Err(e) if e.kind() == std::io::ErrorKind::AlreadyExists && n < 10_000 => n += 1,
+            Err(_) => return,
+        }
+    }
 }
 
 fn expand_nutype(
